@@ -714,7 +714,17 @@ def chains(chk, prog, ring, gl):
 
 
 # ==============================================================================================
-def field_extras(chk, prog, ring, gl):
+def field_sqrt(chk, prog, ring, gl):
+    """SqrtRatio / Sqrt data flow against RFC 9380 F.2.1.2 only"""
+    field_extras(chk, prog, ring, gl, parts=('sqrt',))
+
+
+def field_wide(chk, prog, ring, gl):
+    """SetWideBytes as exact arithmetic only"""
+    field_extras(chk, prog, ring, gl, parts=('wide',))
+
+
+def field_extras(chk, prog, ring, gl, parts=('sqrt', 'wide')):
     """SqrtRatio / Sqrt data flow against RFC 9380 F.2.1.2, and SetWideBytes as exact arithmetic."""
     from . import models
     Fm = ring.meth
@@ -758,7 +768,7 @@ def field_extras(chk, prog, ring, gl):
         return isqr, tm.ite(isqr, y1, y2, 256)
 
     c2_holder = {}
-    for part in partitions(['z', 'u', 'v']):
+    for part in (partitions(['z', 'u', 'v']) if 'sqrt' in parts else ()):
         def h(ctx, part=part):
             m = mk(ctx, 'uf')
             install_pow(m)
@@ -782,9 +792,10 @@ def field_extras(chk, prog, ring, gl):
                     ctx.check(tm.eq(V(ptr[n]), u0 if n == 'u' else v0, 256), 'bv:operand-unchanged')
             chk.note_machine(m)
         chk.explore('field/sqrt/SqrtRatio[%s]' % part_label(part), h, mode='bv')
-    chk.add('field/sqrt/c2^2=-Z=11', [], (c2_holder.get('c2', 0) ** 2) % p == 11, meta={'c2': hex(c2_holder.get('c2', 0))})
+    if 'sqrt' in parts:
+        chk.add('field/sqrt/c2^2=-Z=11', [], (c2_holder.get('c2', 0) ** 2) % p == 11, meta={'c2': hex(c2_holder.get('c2', 0))})
 
-    for part in partitions(['fe', 'a']):
+    for part in (partitions(['fe', 'a']) if 'sqrt' in parts else ()):
         def h(ctx, part=part):
             m = mk(ctx, 'uf')
             install_pow(m)
@@ -803,11 +814,12 @@ def field_extras(chk, prog, ring, gl):
             ctx.check(tm.eq(V(ptr['fe']), tm.ite(isqr, y, 0, 256), 256), 'bv:root-or-zero')
             chk.note_machine(m)
         chk.explore('field/sqrt/Sqrt[%s]' % part_label(part), h, mode='bv')
-    chk.notes.append('SqrtRatio/Sqrt: the code is shown to compute RFC 9380 F.2.1.2 (optimized sqrt_ratio for q = 3 mod 4) step for step, '
-                     'with c1 = (p-3)/4 and c2^2 = -Z; that this procedure returns (true, sqrt(u/v)) exactly when u/v is square is the RFC\'s claim (Euler criterion) and is trusted')
+    if 'sqrt' in parts:
+        chk.notes.append('SqrtRatio/Sqrt: the code is shown to compute RFC 9380 F.2.1.2 (optimized sqrt_ratio for q = 3 mod 4) step for step, '
+                         'with c1 = (p-3)/4 and c2^2 = -Z; that this procedure returns (true, sqrt(u/v)) exactly when u/v is square is the RFC\'s claim (Euler criterion) and is trusted')
 
     # ---- SetWideBytes: value = OS2IP(src) mod p for every length 32..64, panic outside
-    for L in range(31, 66):
+    for L in (range(31, 66) if 'wide' in parts else ()):
         def h(ctx, L=L):
             m = mk(ctx, 'exact')
             bs = sym_bytes('s', L)
@@ -834,4 +846,5 @@ def field_extras(chk, prog, ring, gl):
             chk.note_machine(m)
             return 'ok'
         chk.explore('field/wide/SetWideBytes@len%d' % L, h, mode='int', timeout=300)
-    chk.bounds.append('SetWideBytes: every length 31..65 (31 and 65 must panic), all byte contents')
+    if 'wide' in parts:
+        chk.bounds.append('SetWideBytes: every length 31..65 (31 and 65 must panic), all byte contents')
